@@ -62,7 +62,8 @@ def extras():
         names = [n for n in t.inputs]
         for perm in ((names[-1],), tuple(reversed(names)), tuple(names[1:] + names[:1])):
             al = ("Al", f, perm)
-            out += [al, ("B", "add", al, ti), ("B", "mul", tj, al), ("B", "sub", al, ("Al", f, tuple(names))), ("R", "add", al, (("i", 2),))]
+            out += [al, ("B", "add", al, ti), ("B", "mul", tj, al), ("B", "sub", al, ("Al", f, tuple(names))), ("R", "add", al, (("i", 2),)),
+                    ("B", "sub", tj, al), ("B", "truediv", ti, al), ("B", "sub", al, tj), ("B", "lt", tj, al), ("B", "pow", ti, al)]
     ind = ("Ind", ("B", "mul", T("k", lid=405), ("B", "mul", x, ti)), "r", "k", "x")
     out += [ind, ("S", ind, (("r", T((), (2,), lid=406)),)), ("S", ind, (("r", V("q", "real", (2,))),))]
     # substitution into a lazily built substitution (fusion rules)
